@@ -179,6 +179,7 @@ PROPS = {
             {"kind": "verus", "unit": "fmt"},
             {"kind": "verus", "unit": "relop"},
             {"kind": "verus", "unit": "derive"},
+            {"kind": "verus", "unit": "qsel"},
             {"kind": "kani-mini", "crate": "sort", "harnesses": [
                 {"harness": "trysort::harness::insert_head_b5", "fn": "src/util/trysort.rs :: insert_head (unsafe, InsertionHole)",
                  "bound": "slices of at most 5 elements; comparator failing (error value or violation) at any call", "timeout": 600},
